@@ -61,6 +61,8 @@ def expected_files(mt, base):
             continue
         if ext:
             out.add(f'{d}/{t.key}.{ext}')
+        elif False:
+            pass
         elif t.kind == 'list_numpy':
             out.add(f'{d}/{t.key}/0.npy')
             out.add(f'{d}/{t.key}/1.npy')
